@@ -142,6 +142,8 @@ var ExprTokens = []string{
 	"null", "true", "false", "$a", "$ij.b", "$", ".b", "?.b", ".0", "?.0", "[", "]", "?[", "[:]", "[1,2]", "['a':1]",
 	"+", "-", "*", "/", "%", "<", ">", "<=", ">=", "==", "!=", "and", "or", "not", "?", ":", "?:", "(", ")", ",", "|", "=", "!", "&", "=>",
 	"f(", "f()", "f(1,2)", "length($a)", "G.x", "g", "}", "{", "/}", "@", "#", " ", "\n", "\x00", "\xff", "é", "😀", "in", "if",
+	"\"\u3053\u308c\u306f\u4e8c\u91cd\u5f15\u7528\u7b26\u3067\u56f2\u307e\u308c\u305f\u6587\u5b57\u5217\u3067\u3059\"", "'\\q\u4e2d\u6587\u4e2d\u6587\u4e2d\u6587\u4e2d\u6587\u4e2d\u6587\u4e2d\u6587\u4e2d\u6587\u4e2d\u6587'", "'\U0001F600\U0001F600\U0001F600\U0001F600\U0001F600\U0001F600\U0001F600\U0001F600\U0001F600\U0001F600\U0001F600\\z'",
+	"\uff15", "\u0663", "\u0967", "-\uff15", "+\uff15", "+5", "+", "-\u0663", "\u00b2", "x\uff11", "$\uff41", "\u212a",
 	".", "..", "$a.", "$a..b", "$.", "$ij.", "$ij", "$a.b.", "?.", "$a.0.", "$a?.", "$a[", "$a.b.c.d.e.f",
 }
 
